@@ -718,7 +718,7 @@ def verify_contract(ctx, contract: Contract, prop: str):
                         ob = ctx.oblige(r2, z3.Not(ctx.truthy(r, v)), "ensures", f"raises_{ename}.returns_only_if_not", extra_hyps=extra)
                         ob.props = cl.props
             for cl in contract.ensures:
-                if cl.mode == "use":
+                if cl.mode in ("use", "bounded"):
                     continue
                 for r, v in eval_clause(ctx, spec_mi, cl.node, env, q.fork(), old_path, res, contract.unfold):
                     ob = ctx.oblige(r, ctx.truthy(r, v), "ensures", cl.name)
